@@ -125,10 +125,10 @@ DoUpdate(s, ch, c, W) == DoStart(DoStop(DoPackets(DoFinal(DoBegin(s, ch, c)), W)
 (***************************************************************************)
 (* Actions                                                                 *)
 (***************************************************************************)
-Choices == {f \in [AmbiguousPairs -> UNION {Cands(x[1], x[2]) : x \in AmbiguousPairs}] :
+ChoiceFns == {f \in [AmbiguousPairs -> UNION {Cands(x[1], x[2]) : x \in AmbiguousPairs}] :
               \A x \in AmbiguousPairs : f[x] \in Cands(x[1], x[2])}
 
-Init == st = St0 /\ choice \in Choices /\ act = [name |-> "Init"]
+Init == st = St0 /\ choice \in ChoiceFns /\ act = [name |-> "Init"]
 
 Packets(S) == /\ S \cap DOMAIN st.running # {}
               /\ st' = DoPackets(st, S) /\ UNCHANGED choice
